@@ -412,10 +412,10 @@ func (c *DefaultCtx) SetContext(ctx context.Context) {
 // Cookie sets a cookie by passing a cookie struct.
 func (c *DefaultCtx) Cookie(cookie *Cookie) {
 	fcookie := fasthttp.AcquireCookie()
-	fcookie.SetKey(cookie.Name)
-	fcookie.SetValue(cookie.Value)
-	fcookie.SetPath(cookie.Path)
-	fcookie.SetDomain(cookie.Domain)
+	fcookie.SetKey(sanitizeHeaderValue(cookie.Name))
+	fcookie.SetValue(sanitizeHeaderValue(cookie.Value))
+	fcookie.SetPath(sanitizeHeaderValue(cookie.Path))
+	fcookie.SetDomain(sanitizeHeaderValue(cookie.Domain))
 	// only set max age and expiry when SessionOnly is false
 	// i.e. cookie supposed to last beyond browser session
 	// refer: https://developer.mozilla.org/en-US/docs/Web/HTTP/Cookies#define_the_lifetime_of_a_cookie
@@ -497,7 +497,7 @@ func (c *DefaultCtx) Format(handlers ...ResFmt) error {
 	c.Vary(HeaderAccept)
 
 	if c.Get(HeaderAccept) == "" {
-		c.Response().Header.SetContentType(handlers[0].MediaType)
+		c.Response().Header.SetContentType(sanitizeHeaderValue(handlers[0].MediaType))
 		return handlers[0].Handler(c)
 	}
 
@@ -525,7 +525,7 @@ func (c *DefaultCtx) Format(handlers ...ResFmt) error {
 
 	for _, h := range handlers {
 		if h.MediaType == accept {
-			c.Response().Header.SetContentType(h.MediaType)
+			c.Response().Header.SetContentType(sanitizeHeaderValue(h.MediaType))
 			return h.Handler(c)
 		}
 	}
@@ -880,7 +880,7 @@ func (c *DefaultCtx) JSON(data any, ctype ...string) error {
 	}
 	c.fasthttp.Response.SetBodyRaw(raw)
 	if len(ctype) > 0 {
-		c.fasthttp.Response.Header.SetContentType(ctype[0])
+		c.fasthttp.Response.Header.SetContentType(sanitizeHeaderValue(ctype[0]))
 	} else {
 		c.fasthttp.Response.Header.SetContentType(MIMEApplicationJSON)
 	}
@@ -898,7 +898,7 @@ func (c *DefaultCtx) CBOR(data any, ctype ...string) error {
 	}
 	c.fasthttp.Response.SetBodyRaw(raw)
 	if len(ctype) > 0 {
-		c.fasthttp.Response.Header.SetContentType(ctype[0])
+		c.fasthttp.Response.Header.SetContentType(sanitizeHeaderValue(ctype[0]))
 	} else {
 		c.fasthttp.Response.Header.SetContentType(MIMEApplicationCBOR)
 	}
@@ -1721,7 +1721,7 @@ func (c *DefaultCtx) Set(key, val string) {
 }
 
 func (c *DefaultCtx) setCanonical(key, val string) {
-	c.fasthttp.Response.Header.SetCanonical(utils.UnsafeBytes(key), utils.UnsafeBytes(val))
+	c.fasthttp.Response.Header.SetCanonical(utils.UnsafeBytes(key), utils.UnsafeBytes(sanitizeHeaderValue(val)))
 }
 
 // Subdomains returns a string slice of subdomains in the domain name of the request.
@@ -1795,7 +1795,7 @@ func (c *DefaultCtx) String() string {
 // Type sets the Content-Type HTTP header to the MIME type specified by the file extension.
 func (c *DefaultCtx) Type(extension string, charset ...string) Ctx {
 	if len(charset) > 0 {
-		c.fasthttp.Response.Header.SetContentType(utils.GetMIME(extension) + "; charset=" + charset[0])
+		c.fasthttp.Response.Header.SetContentType(utils.GetMIME(extension) + "; charset=" + sanitizeHeaderValue(charset[0]))
 	} else {
 		c.fasthttp.Response.Header.SetContentType(utils.GetMIME(extension))
 	}
